@@ -355,20 +355,118 @@ static int do_read(const tspec_t* f, const char* path, const char* mode, int arm
     return bad;
 }
 
+static int g_big = 0;   /* readbig / batchbig: one call (one batch) spans all pages of a row group */
+/* column reader API, ONE read call for all pages of a column chunk.  Every returned value - in particular every
+ * byte-array pointer - is dereferenced AFTER the call has returned (hash_page), which is what the caller does. */
+static int do_readbig(const tspec_t* f, const char* path, const char* mode, int armed, uint64_t* eff) {
+    opened_t o; *eff = FNV0;
+    int rc = open_mode(path, mode, &o, armed);
+    if (rc) return 1;
+    int bad = 0;
+    size_t cap = (size_t)f->rpp * (size_t)f->npages;
+    uint8_t* vals = __real_malloc(16 * cap + 16); int16_t* def = __real_malloc(2 * cap + 2);
+    uint8_t* avals = __real_malloc(16 * cap + 16); int16_t* adef = __real_malloc(2 * cap + 2); char* astrs = __real_malloc(24 * cap + 24);
+    for (int g = 0; g < f->nrg; g++) {
+        for (int c = 0; c < f->ncols; c++) {
+            carquet_error_t err = CARQUET_ERROR_INIT;
+            if (armed) ARM();
+            carquet_column_reader_t* cr = carquet_reader_get_column(o.r, g, c, &err);
+            DISARM();
+            rec(bad ? "gc_after_error" : "gc", cr ? 0 : (long)err.code, bad || cr != NULL);
+            if (!cr) { bad = 1; continue; }
+            /* A read call may deliver fewer rows than asked for (like read(2)); the caller calls again.  What counts is
+             * that no call reports more than it delivers: the rows of all calls together, each dereferenced right
+             * after its call returned, must be the column - or some call must report an error (negative count). */
+            char t = f->types[c]; size_t vs = type_size(t); int opt = type_optional(t);
+            size_t total = 0, nn_total = 0; int err_seen = 0;
+            for (int calls = 0; calls < 10 && total < cap; calls++) {
+                memset(vals, 0, 16 * cap); memset(def, 0, 2 * cap);
+                if (armed) ARM();
+                int64_t n = carquet_column_read_batch(cr, vals, (int64_t)(cap - total), opt ? def : NULL, NULL);
+                DISARM();
+                rec("rB", (long)n, n >= 0);
+                if (n < 0) { err_seen = 1; break; }
+                if (n == 0) break;
+                size_t nn = (size_t)n;
+                if (opt) { nn = 0; for (int64_t i = 0; i < n; i++) if (def[i] == 1) nn++; }
+                for (int64_t i = 0; i < n; i++) adef[total + (size_t)i] = opt ? def[i] : 1;
+                for (size_t i = 0; i < nn; i++) {
+                    if (type_base(t) == 'b') {
+                        carquet_byte_array_t ba; memcpy(&ba, vals + vs * i, sizeof ba);
+                        char* dst = astrs + 24 * (nn_total + i);
+                        int32_t L = ba.length < 0 ? 0 : ba.length > 24 ? 24 : ba.length;
+                        if (L > 0 && ba.data) memcpy(dst, ba.data, (size_t)L);      /* the dereference */
+                        ba.data = (uint8_t*)dst; memcpy(avals + vs * (nn_total + i), &ba, sizeof ba);
+                    } else memcpy(avals + vs * (nn_total + i), vals + vs * i, vs);
+                }
+                total += (size_t)n; nn_total += nn;
+            }
+            if (err_seen) {
+                bad = 1;
+                if (armed) ARM();
+                int64_t n2 = carquet_column_read_batch(cr, vals, (int64_t)cap, opt ? def : NULL, NULL);
+                DISARM();
+                rec("rB_again", (long)n2, 1);
+                if (n2 > 0) (void)hash_page(FNV0, t, vals, def, n2);
+            } else {
+                *eff = hash_page(*eff, t, avals, adef, (int64_t)total);
+                if (total == cap) {
+                    if (armed) ARM();
+                    int64_t n2 = carquet_column_read_batch(cr, vals, (int64_t)cap, opt ? def : NULL, NULL);
+                    DISARM();
+                    rec("rB_end", (long)n2, n2 == 0);
+                    if (n2 != 0) bad = 1;
+                }
+            }
+            if (armed) ARM();
+            carquet_column_reader_free(cr);
+            DISARM();
+        }
+    }
+    free(vals); free(def); free(avals); free(adef); free(astrs);
+    close_mode(&o, armed);
+    return bad;
+}
+/* the intended content in the order do_readbig hashes it */
+static uint64_t intended_big_hash(const tspec_t* f) {
+    uint64_t h = FNV0;
+    size_t cap = (size_t)f->rpp * (size_t)f->npages;
+    int16_t* def = __real_malloc(2 * cap + 2); uint8_t* vals = __real_malloc(16 * cap + 16); char* strs = __real_malloc(24 * cap + 24);
+    int16_t* pdef = __real_malloc(2 * (size_t)f->rpp); uint8_t* pvals = __real_malloc(16 * (size_t)f->rpp); char* pstrs = __real_malloc(24 * (size_t)f->rpp);
+    for (int g = 0; g < f->nrg; g++) for (int c = 0; c < f->ncols; c++) {
+        size_t nn = 0, nr = 0; char t = f->types[c]; size_t vs = type_size(t);
+        for (int p = 0; p < f->npages; p++) {
+            int nv = gen_page(f, g, p, c, pvals, pdef, pstrs);
+            for (int i = 0; i < f->rpp; i++) def[nr++] = pdef[i];
+            for (int i = 0; i < nv; i++) {
+                if (type_base(t) == 'b') {
+                    carquet_byte_array_t ba; memcpy(&ba, pvals + vs * (size_t)i, sizeof ba);
+                    char* dst = strs + 24 * nn; memcpy(dst, ba.data, (size_t)ba.length); ba.data = (uint8_t*)dst;
+                    memcpy(vals + vs * nn, &ba, sizeof ba);
+                } else memcpy(vals + vs * nn, pvals + vs * (size_t)i, vs);
+                nn++;
+            }
+        }
+        h = hash_page(h, t, vals, def, (int64_t)cap);
+    }
+    free(def); free(vals); free(strs); free(pdef); free(pvals); free(pstrs);
+    return h;
+}
+
 static int do_batch(const tspec_t* f, const char* path, const char* mode, int armed, uint64_t* eff) {
     opened_t o; *eff = FNV0;
     int rc = open_mode(path, mode, &o, armed);
     if (rc) return 1;
     int bad = 0;
     carquet_batch_reader_config_t cfg; carquet_batch_reader_config_init(&cfg);
-    cfg.batch_size = f->rpp; cfg.num_threads = 1;
+    cfg.batch_size = g_big ? f->rpp * f->npages : f->rpp; cfg.num_threads = 1;
     carquet_error_t err = CARQUET_ERROR_INIT;
     if (armed) ARM();
     carquet_batch_reader_t* br = carquet_batch_reader_create(o.r, &cfg, &err);
     DISARM();
     rec("bc", br ? 0 : (long)err.code, br != NULL);
     if (!br) { close_mode(&o, armed); return 1; }
-    int total = f->nrg * f->npages;
+    int total = g_big ? f->nrg : f->nrg * f->npages;
     for (int i = 0; i <= total && !bad; i++) {
         carquet_row_batch_t* b = NULL;
         if (armed) ARM();
@@ -598,6 +696,12 @@ static int run_scenario(int t0, int armed, uint64_t* eff, long* fsize) {
     }
     if (parse_tspec(&f, t0 + 1, "r") < 0) return 1;
     const char* mode = h_ntok > t0 + 7 ? h_tok[t0 + 7] : "fread";
+    if (!strcmp(kind, "readbig")) {
+        int bad = do_readbig(&f, g_scen_path, mode, armed, eff);
+        if (!bad && SH->fail_at == 0) g_readback = (*eff == intended_big_hash(&f)) ? 1 : 0;
+        return bad;
+    }
+    if (!strcmp(kind, "batchbig")) { g_big = 1; return do_batch(&f, g_scen_path, mode, armed, eff); }
     if (!strcmp(kind, "read")) return do_read(&f, g_scen_path, mode, armed, eff);
     if (!strcmp(kind, "batch")) return do_batch(&f, g_scen_path, mode, armed, eff);
     return 1;
@@ -606,7 +710,7 @@ static int run_scenario(int t0, int armed, uint64_t* eff, long* fsize) {
 /* read/batch scenarios need their input file: written once (unarmed) by the parent */
 static int prepare(int t0) {
     const char* kind = h_tok[t0];
-    if (strcmp(kind, "read") && strcmp(kind, "batch")) return 0;
+    if (strcmp(kind, "read") && strcmp(kind, "batch") && strcmp(kind, "readbig") && strcmp(kind, "batchbig")) return 0;
     tspec_t f; if (parse_tspec(&f, t0 + 1, "in") < 0) return -1;
     snprintf(g_scen_path, sizeof g_scen_path, "%s/in_c%d_%s_%d_%d_%d.parquet", f.dir, f.codec, f.types, f.nrg, f.npages, f.rpp);
     struct stat sb;
